@@ -379,7 +379,20 @@ pub fn run(tier: Tier, seed: u64) -> i32 {
                 let obs = run_dynamic(&text, &sigs, true, &script, &opts);
                 st.steps += obs.items.len() as u64;
                 let proj = Proj { input_values: true, expected: true, output: false, checked_kind: true, lines: true, vars: false, verdicts: false };
-                if let Some((_, m)) = run_mismatch(&r, &obs, proj, Some(&rl)) {
+                let mut mm = run_mismatch(&r, &obs, proj, Some(&rl));
+                if mm.is_none() && nrows == 2 {
+                    // a driver that relies on the provided write_input sees one call for every executed row,
+                    // with the row's inputs (a write that repeats the previous vector is a write all the same)
+                    let fw = run_dynamic(&text, &sigs, false, &script, &opts);
+                    st.witness("history_through_the_provided_write_input");
+                    let rows_fw = fw.items.iter().filter(|i| i.is_row()).count();
+                    if fw.items != obs.items {
+                        mm = Some((0, "item 0: inputs value: a driver without its own write_input gets other rows than one with it".into()));
+                    } else if fw.log.len() != rows_fw + 1 {
+                        mm = Some((0, format!("item 0: call kind: a driver that relies on the provided write_input saw {} calls for {} executed rows (and the constructor's)", fw.log.len(), rows_fw)));
+                    }
+                }
+                if let Some((_, m)) = mm {
                     let class = format!("history: {}", classify(&m));
                     let summary = format!("program:\n{text}first difference at {m}");
                     st.violation(&class, idx, summary, || dyn_replay(&text, &sigs, true, &script, &opts, ref_items_brief(&r), &obs, &m));
@@ -460,7 +473,7 @@ pub fn run(tier: Tier, seed: u64) -> i32 {
         seed,
         rule: "every combination of per-column entries {0,1,X,C,Z,(k)} / {5,X,C,(k+1),Z} / expected {X,Z,2,(k)} (and bits(2,k) over adjacent columns), in each of 4 program forms, for each configuration; mixed-radix index decoded injectively; plus every ordered sequence of 2 (thorough: 3) rows over a reduced menu with two clock columns; a case is non-trivial if a row holds X or C in an input column".into(),
         assumptions: vec!["reference expansion in refsem.rs::do_row is the oracle".into(), "loop bounds are >= 1 here (bounds <= 0 are C01's)".into()],
-        required_witnesses: vec!["ten_x_inputs_and_a_clock", "sixty_four_and_more_x_inputs", "x_expansion", "c_expansion", "x_and_c_composed", "bits_row", "depth 0", "loop depth 1", "loop depth 2", "repeat row", "variables named C X Z c x z", "loop counter named X", "history_of_rows", "history_with_a_driver_fault_then_carried_on", "row_reading_the_device_while_it_is_expanded", "iterator_advanced_with_nth"],
+        required_witnesses: vec!["ten_x_inputs_and_a_clock", "sixty_four_and_more_x_inputs", "x_expansion", "c_expansion", "x_and_c_composed", "bits_row", "depth 0", "loop depth 1", "loop depth 2", "repeat row", "variables named C X Z c x z", "loop counter named X", "history_of_rows", "history_through_the_provided_write_input", "history_with_a_driver_fault_then_carried_on", "row_reading_the_device_while_it_is_expanded", "iterator_advanced_with_nth"],
         exhaustive_note: "all row shapes over the stated menus for every configuration and program form".into(),
         e1: false,
     };
